@@ -237,6 +237,7 @@ def showSt (s : St) : String :=
     | .internal .outOfFuel => "livelock"
   o ++ " ret=" ++ csv s.ret ++ " enq=" ++ ",".intercalate (s.enq.map fun (w, i) => toString w ++ ":" ++ toString i)
     ++ " closed=" ++ csv ((List.range s.ws.length).filter fun k => (getW s k).closed)
+    ++ " drop=" ++ ",".intercalate (s.dropped.map fun d => toString d.w ++ ":" ++ toString d.inp ++ ":" ++ (if d.handed then "1" else "0"))
 
 /-- later runs on the same pool: `|| <inputs> <pre...> | <evs...>` repeated -/
 partial def laterRuns (c : Cfg) (s : St) (args : List String) : Option (List String) :=
@@ -252,7 +253,7 @@ partial def laterRuns (c : Cfg) (s : St) (args : List String) : Option (List Str
       let s0 := resetFor PwVerif.Gen.poolReset s inputs
       if !usable s0 then
         -- `run()` returns None at once: nothing changes
-        (laterRuns c s more).map (("noworkers ret= enq= closed=" ++ csv ((List.range s.ws.length).filter fun k => (getW s k).closed)) :: ·)
+        (laterRuns c s more).map (("noworkers ret= enq= closed=" ++ csv ((List.range s.ws.length).filter fun k => (getW s k).closed) ++ " drop=") :: ·)
       else
         let s' := runEvents c pickFirst (nextRun c pickFirst PwVerif.Gen.poolReset s inputs pre) evs
         (laterRuns c s' more).map (showSt s' :: ·)
